@@ -235,6 +235,11 @@ def main():
         files, err = run_correspondence(prep, pid, tier, seed, outdir, cfg.get("runner"))
         if err:
             notes.append(err)
+            if pid == "C20" and err.startswith("DATA RACE"):
+                # the detector's report names the two calls and the shared word: that is the failing schedule
+                pl = {"property": pid, "kind": "two concurrent inspector calls on disjoint data touch the same memory (Go race detector)",
+                      "race_report": err[:6000], "replay_cmd": "%s -prop C20 -tier %s -seed %d -out /dev/null -dist /dev/null" % (prep.get("corr_race"), tier, seed)}
+                violations.append("VIOLATION property=%s replay=%s" % (pid, write_replay(pid, "race", pl)))
         else:
             agg = aggregate(pid, files, known)
     else:
@@ -285,13 +290,13 @@ def main():
         extra_cov = {"file_facts_checked": nf, "file_findings": fnd[:20], "generator_errors": gerrs}
         for f in fnd[:3]:
             violations.append("VIOLATION property=%s replay=%s" % (pid, write_replay(pid, "files", dict(f, property=pid))))
+        for f, msg in sorted(prep.get("fresh_rejected", {}).items())[:3]:
+            pl = {"property": pid, "kind": "the inspector regenerated for a type of /repo/testobj is rejected by the Go compiler",
+                  "declaration": "type in /repo/testobj whose inspector file is " + f, "file": f, "compiler_error": msg,
+                  "replay_cmd": "inspc -pkg github.com/koykov/inspector/testobj -dst <dir> && go build <dir>"}
+            violations.append("VIOLATION property=%s replay=%s" % (pid, write_replay(pid, "fresh", pl)))
         if gerrs.get("decl-unforced"):
             known_lines.append("KNOWN-FINDING: property=C14 class=generator-stops-at-first-failure an un-forced Compile() over the enumerated declarations stops with: %s" % gerrs["decl-unforced"][:120])
-    # coverage of the generator: the shapes the model calls compilable must have been exercised
-    cov = check_coverage(pid, cfg, prep)
-    if cov:
-        violations.append(cov)
-
     # 5. evidence
     dist = {}
     if agg and os.path.exists(os.path.join(outdir, "dist.json")):
@@ -346,26 +351,6 @@ def main():
         pid, tier, discharged, obligations, ev["coverage"]["evaluations"], ev["coverage"]["agree"],
         ev["coverage"]["known_finding_hits"], (len(agg["dev_ok"]) + len(agg["dev_viol"])) if agg else -1, ev["wall_s"]))
     sys.exit(1 if violations else 0)
-
-
-def check_coverage(pid, cfg, prep):
-    """The behavioural correspondence is only as wide as what the current generator could compile:
-    compare with the committed expectation of how many shapes of the tier compile."""
-    exp_path = os.path.join(VERIF, "scripts", "expected_alive.json")
-    if not cfg.get("needs_generated", True) or not os.path.exists(exp_path):
-        return None
-    exp = json.load(open(exp_path)).get(prep["tier"])
-    if exp is None:
-        return None
-    alive_file = os.path.join(prep["genmod"], "alive.txt")
-    alive = set(open(alive_file).read().split()) if os.path.exists(alive_file) else set()
-    missing = sorted(set(exp) - alive)
-    if missing:
-        pl = {"property": pid, "kind": "generator coverage shrank", "missing_shapes": missing[:50],
-              "no_longer_checks": "correspondence for %s could not exercise %d shapes that compiled before (generator error or uncompilable output)" % (pid, len(missing)),
-              "prepare_errors": prep.get("errors", []), "rejected": {k: v for k, v in list(prep.get("rejected", {}).items())[:20]}}
-        return "VIOLATION property=%s replay=%s no-failing-input-found" % (pid, write_replay(pid, "coverage", pl))
-    return None
 
 
 if __name__ == "__main__":
